@@ -446,6 +446,99 @@ def rule_C(ck, units):
                 ck.ob('C.requests-completed', key, f.where(), not left, '' if not left else 'requests %s may still be pending when the function returns' % left)
 
 
+SCALAR_SIZE = {'float': 4, 'double': 8, 'long double': 16, 'int': 4, 'unsigned int': 4, 'long': 8, 'unsigned long': 8, 'long long': 8, 'unsigned long long': 8, 'char': 1}
+
+
+def split_targs(s_):
+    """top-level template arguments of `name<...>`"""
+    i = s_.find('<')
+    if i < 0:
+        return s_, []
+    name, body = s_[:i], s_[i + 1:s_.rfind('>')]
+    out, depth, cur = [], 0, ''
+    for ch in body:
+        if ch == '<':
+            depth += 1
+        elif ch == '>':
+            depth -= 1
+        if ch == ',' and depth == 0:
+            out.append(cur.strip())
+            cur = ''
+        else:
+            cur += ch
+    if cur.strip():
+        out.append(cur.strip())
+    return name, out
+
+
+def sizeof_name(t):
+    """size in bytes of an amgcl value type given by name (scalars, std::complex, static_matrix)"""
+    t = t.replace('const ', '').strip()
+    if t in SCALAR_SIZE:
+        return SCALAR_SIZE[t]
+    name, args = split_targs(t)
+    if name == 'std::complex' and len(args) == 1:
+        s_ = sizeof_name(args[0])
+        return 2 * s_ if s_ else None
+    if name == 'amgcl::static_matrix' and len(args) == 3:
+        s_ = sizeof_name(args[0])
+        try:
+            return s_ * int(args[1]) * int(args[2]) if s_ else None
+        except ValueError:
+            return None
+    return None
+
+
+def rule_E(ck, units):
+    ck.rule('E.datatype-covers-value', 'mpi::datatype_impl<T>::create builds a contiguous MPI datatype of N elements of scalar S with N * sizeof(S) == sizeof(T), for every value type T instantiated '
+                                       '(blocks of real and of complex numbers): a message element carries the whole value', 3)
+    done = set()
+    for u in units.values():
+        for f in u.funcs:
+            if f.q != 'amgcl::mpi::datatype_impl::create' or f.body is None:
+                continue
+            cname, targs = split_targs(f.clsfull or '')
+            if not targs or targs[0] in done:
+                continue
+            T = targs[0]
+            done.add(T)
+            calls = [c for c in f.calls('MPI_Type_contiguous')]
+            key = 'amgcl::mpi::datatype_impl<%s>' % T
+            if len(calls) != 1:
+                ck.ob('E.datatype-covers-value', key, f.where(), False, 'expected one MPI_Type_contiguous call, found %d' % len(calls))
+                continue
+            c = calls[0]
+            # element count: constant value of the first argument (through a once-initialised local)
+            def const_of(e, depth=0):
+                e = unwrap(e)
+                if e is None:
+                    return None
+                if e['k'] == 'lit' and e.get('t') == 'int':
+                    return int(e['v'])
+                if 'cv' in e:
+                    return int(e['cv'])
+                if e['k'] == 'ref' and depth < 3:
+                    inits = [v['init'] for n in f.nodes.values() if n['k'] == 'decl' for v in n['v'] if v['d'] == e['d'] and v.get('init') is not None]
+                    mods = [n for n in f.nodes.values() if n['k'] == 'bin' and n['op'] in ('=', '+=', '-=', '*=', '/=') and unwrap(n['x'])['k'] == 'ref' and unwrap(n['x'])['d'] == e['d']]
+                    if len(inits) == 1 and not mods:
+                        return const_of(inits[0], depth + 1)
+                return None
+            N = const_of(c['a'][0])
+            base = unwrap(c['a'][1])
+            S = None
+            if base is not None and base['k'] == 'call' and 'fd' in base:
+                g = u.by_id.get(base['fd'])
+                if g is not None:
+                    _, sa_ = split_targs(g.clsfull or g.full)
+                    S = sa_[0] if sa_ else None
+            sT, sS = sizeof_name(T), sizeof_name(S) if S else None
+            if N is None or sT is None or sS is None:
+                ck.ob('E.datatype-covers-value', key, f.where(c), False, 'cannot establish the element count (%s) or the sizes of %s / %s at compile time' % (N, T, S))
+                continue
+            ok = N * sS == sT
+            ck.ob('E.datatype-covers-value', key, f.where(c), ok, '' if ok else 'the MPI datatype of %s is %d x %s = %d bytes, the value has %d bytes: only part of each value is sent / received' % (T, N, S, N * sS, sT))
+
+
 def rule_D(ck, units):
     ck.rule('D.gather-counts', 'in MPI_Gather / MPI_Allgather with equal send and receive types the per-rank receive count equals the send count', 3)
     done = set()
@@ -476,6 +569,7 @@ def main(tier):
     rule_B(ck, units)
     rule_C(ck, units)
     rule_D(ck, units)
+    rule_E(ck, units)
     ck.assumptions += ['MPI_Allreduce / MPI_Allgather deliver the same result on all ranks', 'configuration parameters (prm.*, scalar arguments such as power_iters) are equal on all ranks',
                        'equality with the serial kernels for all partitions and the correctness of transpose / product are not decided']
     return ck.finish()
